@@ -23,7 +23,7 @@ PROPS = {
     ),
     'C04': dict(
         level='exploration',
-        quick=dict(runs=[run('TestC04', 45, timeout=400, shrinktime='45s')]),
+        quick=dict(runs=[run('TestC04', 28, timeout=400, shrinktime='45s')]),
         thorough=dict(runs=[run('TestC04', 1200, timeout=3000, shrinktime='120s')]),
         assumptions=['Rename, Link and Mknod return ErrNotImplemented and are not part of the histories', 'attribute calls are issued on files and directories, not on symlinks (the API follows links)'],
     ),
@@ -125,5 +125,12 @@ PROPS = {
         assumptions=['a content write (and a FAT rename) may legitimately move timestamps, so time expectations of that node are dropped at that point; mode/owner/flag expectations are kept',
                      'FAT creation and access times are only observable in the raw directory entry, read with the independent parser; access time has date resolution',
                      'the sandbox runs as uid 0, so os.Lchown on workspace files works'],
+    ),
+    'C20': dict(
+        level='exploration', crash_is_violation=True,
+        quick=dict(runs=[run('TestC20', 30, timeout=400, shrinktime='45s')]),
+        thorough=dict(runs=[run('TestC20', 1200, timeout=3000, shrinktime='120s')]),
+        assumptions=['e2fsprogs 1.47.0 (mke2fs -d, debugfs) is the reference; where mke2fs itself stores something else than the source (it drops trailing zero blocks / holes from the file size, stores 32-bit seconds) the expectation is what debugfs reads back',
+                     'refusal at open and an error on an affected node are acceptable outcomes; images without metadata_csum or without extents are refused by the library and count as discarded cases'],
     ),
 }
